@@ -416,6 +416,12 @@ func (p *Parser) parseProviderArgument(pkg *packages.Package, kessokuPackageScop
 					return nil
 				}
 				continue
+			case *ast.ParenExpr:
+				currentArg = v.X
+			default:
+				// e.g. a Set variable of another package (pkg.Set): it cannot be followed to its
+				// kessoku.Set(...) call. Without this case the loop never ends.
+				return fmt.Errorf("invalid Set call expression: %s is neither a kessoku.Set call nor a variable of this package", types.ExprString(currentArg))
 			}
 		}
 
